@@ -1,6 +1,907 @@
-//! C09 — not implemented yet.
-use crate::ctx::Ctx;
+//! C09 — file I/O round-trips; sharded, streamed and parallel paths equal the plain ones.
+//!
+//! Requests (answers are produced by the REAL code on real files in a temp dir):
+//!   SHARDS <jsonl|csv|csvh> <total> <per>        T<total> R<ranges> P<split sizes> S<seq len> Q<par len> V<vec len>
+//!   SHARDS parquet <g1,g2,..|-> <per>            (row-group sizes of the fixture file)
+//!   PARWRITE <jsonl|csv|csvh> <n> <shards|none> auto=<a> via=<fn|pc>
+//!                                                OK B<idx:start-end,..> W<H|id,..> | PANIC | ERR
+//!   JSONLRD <hex file bytes> <per>               T.. R.. SEQ <OK ids|ERR> PAR <OK a|b|PANIC> VEC <OK ids|ERR>
+//!   GLOB <path:count,..>                         F<file order> N<records> I<file idx per record>
+//!
+//! Oracles (independent of the Lean model): read-back == written (bit-exact floats), in order;
+//! every streamed view (split concat, collect_seq, collect_par with several partition counts)
+//! == the whole read; the parallel-written file is byte-identical to the sequentially written
+//! one and reads back == written; the real shard ranges tile `[0,total)`; glob read == the
+//! concatenation of the per-file reads in component-wise sorted path order.
+
+use crate::ctx::{Ctx, guarded, hex};
+use ironbeam::io::csv::{CsvVecOps, build_csv_shards, verif_split_ranges};
+use ironbeam::io::glob::expand_glob;
+use ironbeam::io::jsonl::{JsonlVecOps, build_jsonl_shards, write_jsonl_vec};
+use ironbeam::io::parquet::{ParquetVecOps, build_parquet_shards, read_parquet_row_group_range};
+use ironbeam::{
+    Partition, Pipeline, VecOps, from_vec, read_csv, read_csv_streaming, read_csv_vec, read_jsonl,
+    read_jsonl_streaming, read_jsonl_vec, read_parquet_streaming, read_parquet_vec, write_csv_par,
+    write_csv_vec, write_jsonl_par, write_parquet_vec,
+};
+use serde::{Deserialize, Serialize};
+use std::path::{Path, PathBuf};
+use std::sync::{Arc, Mutex};
+
+#[derive(Clone, Debug, PartialEq, Serialize, Deserialize)]
+pub struct Rec {
+    id: u64,
+    s: String,
+    i: i64,
+    f: f64,
+}
+
+/// bit-exact record equality (`-0.0 != 0.0`)
+fn same(a: &[Rec], b: &[Rec]) -> bool {
+    a.len() == b.len()
+        && a.iter().zip(b).all(|(x, y)| x.id == y.id && x.s == y.s && x.i == y.i && x.f.to_bits() == y.f.to_bits())
+}
+
+#[derive(Clone, Copy, PartialEq, Eq, Debug)]
+enum Fmt {
+    Jsonl,
+    Csv,
+    CsvH,
+    Parquet,
+}
+impl Fmt {
+    fn name(self) -> &'static str {
+        match self {
+            Fmt::Jsonl => "jsonl",
+            Fmt::Csv => "csv",
+            Fmt::CsvH => "csvh",
+            Fmt::Parquet => "parquet",
+        }
+    }
+    fn ext(self) -> &'static str {
+        match self {
+            Fmt::Jsonl => "jsonl",
+            Fmt::Csv | Fmt::CsvH => "csv",
+            Fmt::Parquet => "parquet",
+        }
+    }
+    fn hdr(self) -> bool {
+        self == Fmt::CsvH
+    }
+}
+
+// ---------------------------------------------------------------- record generator
+
+const PIECES: &[&str] = &[
+    "", "a", "word", " ", "  ", "\t", ",", ";", "|", "\"", "\"\"", "'", "\\", "\\n", "\n", "\r", "\r\n", "\n\n",
+    "é", "ß", "日本語", "😀", "\u{2028}", "\u{a0}", "\u{85}", "\u{feff}", "null", "true", "123", "-1.5", "1e5", "{", "}", "[",
+    "]", ":", "#", "id", "s,i", "a,b", "x\"y", ", ", " ,", "\u{0}", "\u{1}", "\u{7f}",
+];
+
+fn gen_string(cx: &mut Ctx) -> String {
+    let k = match cx.rng.below(10) {
+        0 => 0,
+        1..=4 => 1,
+        5..=7 => 2,
+        _ => 3 + cx.rng.below(4),
+    };
+    let mut s = String::new();
+    for _ in 0..k {
+        s.push_str(*cx.rng.pick(PIECES));
+    }
+    match cx.rng.below(8) {
+        0 => format!(" {s}"),
+        1 => format!("{s} "),
+        2 => format!("  {s}\t"),
+        _ => s,
+    }
+}
+
+fn gen_i64(cx: &mut Ctx) -> i64 {
+    match cx.rng.below(8) {
+        0 => i64::MIN,
+        1 => i64::MAX,
+        2 => 0,
+        3 => -1,
+        4 => i64::MIN + 1,
+        5 => (1i64 << 53) + 1,
+        _ => cx.rng.next_u64() as i64 >> cx.rng.below(64),
+    }
+}
+
+/// "exactly representable floats": dyadic rationals, integers and powers of two whose shortest
+/// decimal form has at most 15 significant digits, and signed zero. (serde_json without its
+/// `float_roundtrip` feature — third-party, documented — may parse 16/17-digit decimals 1 ULP off,
+/// e.g. `4226558646762882.0` or `2^-43`; such values are outside the property's quantifier and
+/// are not generated.)
+fn gen_f64(cx: &mut Ctx) -> f64 {
+    match cx.rng.below(8) {
+        0 => 0.0,
+        1 => -0.0,
+        2 => 1.0,
+        3 => (cx.rng.range(-1_000_000, 1_000_000) as f64) / f64::from(1u32 << cx.rng.below(11)),
+        4 => 2.0f64.powi(cx.rng.range(-10, 40) as i32) * if cx.rng.chance(1, 2) { -1.0 } else { 1.0 },
+        5 => cx.rng.range(-999_999_999_999_999, 999_999_999_999_999) as f64,
+        6 => -0.5,
+        _ => (cx.rng.range(-4096, 4096) as f64) * 0.25,
+    }
+}
+
+fn gen_recs(cx: &mut Ctx, n: usize) -> Vec<Rec> {
+    // record classes: plain / adversarial strings
+    let plain = cx.rng.chance(1, 4);
+    (0..n)
+        .map(|k| Rec {
+            id: k as u64,
+            s: if plain { format!("r{k}") } else { gen_string(cx) },
+            i: gen_i64(cx),
+            f: gen_f64(cx),
+        })
+        .collect()
+}
+
+// ---------------------------------------------------------------- formatting
+
+fn join<T: ToString>(xs: impl IntoIterator<Item = T>, sep: &str) -> String {
+    let v: Vec<String> = xs.into_iter().map(|x| x.to_string()).collect();
+    if v.is_empty() { "-".into() } else { v.join(sep) }
+}
+fn fmt_ranges<A: ToString + Copy, B: ToString + Copy>(rs: &[(A, B)]) -> String {
+    join(rs.iter().map(|(a, b)| format!("{}-{}", a.to_string(), b.to_string())), ",")
+}
+fn opt_shards(s: Option<usize>) -> String {
+    s.map_or("none".into(), |x| x.to_string())
+}
+
+fn tiles(rs: &[(u64, u64)], total: u64) -> bool {
+    let mut at = 0u64;
+    for &(s, e) in rs {
+        if s != at || e <= s {
+            return false;
+        }
+        at = e;
+    }
+    at == total
+}
+
+fn parts_to_vecs(parts: Vec<Partition>) -> Option<Vec<Vec<Rec>>> {
+    parts.into_iter().map(|p| p.downcast::<Vec<Rec>>().ok().map(|b| *b)).collect()
+}
+
+// ---------------------------------------------------------------- fixtures
+
+struct Env {
+    dir: tempfile::TempDir,
+    k: u64,
+    auto_jsonl: usize,
+    auto_csv: usize,
+    log: Arc<Mutex<Vec<(&'static str, usize, usize, usize)>>>,
+}
+impl Env {
+    fn fresh(&mut self, ext: &str) -> PathBuf {
+        self.k += 1;
+        self.dir.path().join(format!("f{}.{ext}", self.k))
+    }
+    fn take_log(&self, site: &str) -> Vec<(usize, usize, usize)> {
+        let mut g = self.log.lock().unwrap();
+        let mut v: Vec<(usize, usize, usize)> = g.iter().filter(|x| x.0 == site).map(|x| (x.1, x.2, x.3)).collect();
+        g.clear();
+        v.sort();
+        v
+    }
+}
+
+fn write_seq(fmt: Fmt, path: &Path, data: &Vec<Rec>) -> anyhow::Result<usize> {
+    match fmt {
+        Fmt::Jsonl => write_jsonl_vec(path, data),
+        Fmt::Csv | Fmt::CsvH => write_csv_vec(path, fmt.hdr(), data),
+        Fmt::Parquet => write_parquet_vec(path, data),
+    }
+}
+fn write_seq_pc(fmt: Fmt, path: &Path, data: &Vec<Rec>) -> anyhow::Result<usize> {
+    let p = Pipeline::default();
+    let pc = from_vec(&p, data.clone());
+    match fmt {
+        Fmt::Jsonl => pc.write_jsonl(path),
+        Fmt::Csv | Fmt::CsvH => pc.write_csv(path, fmt.hdr()),
+        Fmt::Parquet => pc.write_parquet(path),
+    }
+}
+fn read_whole(fmt: Fmt, path: &Path) -> anyhow::Result<Vec<Rec>> {
+    match fmt {
+        Fmt::Jsonl => read_jsonl_vec(path),
+        Fmt::Csv | Fmt::CsvH => read_csv_vec(path, fmt.hdr()),
+        Fmt::Parquet => read_parquet_vec(path),
+    }
+}
+
+/// parquet fixture with the given row-group sizes (one `flush()` per group)
+fn write_parquet_groups(path: &Path, data: &[Rec], sizes: &[usize]) -> anyhow::Result<()> {
+    use arrow::datatypes::FieldRef;
+    use parquet::arrow::arrow_writer::ArrowWriter;
+    use serde_arrow::schema::{SchemaLike, TracingOptions};
+    let fields = Vec::<FieldRef>::from_type::<Rec>(TracingOptions::default())?;
+    let empty: Vec<Rec> = vec![];
+    let schema = serde_arrow::to_record_batch(&fields, &empty)?.schema();
+    let mut w = ArrowWriter::try_new(std::fs::File::create(path)?, schema, None)?;
+    let mut at = 0usize;
+    for &sz in sizes {
+        let chunk: Vec<Rec> = data[at..at + sz].to_vec();
+        at += sz;
+        let batch = serde_arrow::to_record_batch(&fields, &chunk)?;
+        w.write(&batch)?;
+        w.flush()?;
+    }
+    w.close()?;
+    Ok(())
+}
+
+// ---------------------------------------------------------------- SHARDS: streamed == whole
+
+/// Streams `path` (already written, holding `data`) with shard size `per`; emits one SHARDS case.
+fn stream_case(cx: &mut Ctx, fmt: Fmt, path: &Path, data: &Vec<Rec>, per: usize, groups: Option<&[usize]>) {
+    let mut fails: Vec<(&'static str, String)> = vec![];
+    // whole read
+    let whole = read_whole(fmt, path);
+    let v_str = match &whole {
+        Ok(v) => {
+            if !same(v, data) {
+                fails.push(("roundtrip-differs", format!("read_{}_vec returned {} records, first difference at {:?}", fmt.name(), v.len(), first_diff(v, data))));
+            }
+            ids_or_len(v)
+        }
+        Err(e) => {
+            fails.push(("roundtrip-read-error", format!("{e:#}")));
+            "ERR".into()
+        }
+    };
+    // shard metadata + VecOps::split / clone_any, directly
+    type Meta = (u64, String, bool, Option<Vec<Partition>>, Option<Partition>);
+    let meta: Result<anyhow::Result<Meta>, String> = guarded(|| -> anyhow::Result<Meta> {
+        // each VecOps call separately guarded: a panic in one must not hide the other's answer
+        Ok(match fmt {
+            Fmt::Jsonl => {
+                let s = build_jsonl_shards(path, per)?;
+                let ops = JsonlVecOps::<Rec>::new();
+                (s.total_lines, fmt_ranges(&s.ranges), tiles(&s.ranges, s.total_lines), guarded(|| ops.split(&s, 7)).ok().flatten(), guarded(|| ops.clone_any(&s)).ok().flatten())
+            }
+            Fmt::Csv | Fmt::CsvH => {
+                let s = build_csv_shards(path, fmt.hdr(), per)?;
+                let ops = CsvVecOps::<Rec>::new();
+                (s.total_rows, fmt_ranges(&s.ranges), tiles(&s.ranges, s.total_rows), guarded(|| ops.split(&s, 7)).ok().flatten(), guarded(|| ops.clone_any(&s)).ok().flatten())
+            }
+            Fmt::Parquet => {
+                let s = build_parquet_shards(path, per)?;
+                let ops = ParquetVecOps::<Rec>::new();
+                let ng = groups.map_or(0, <[usize]>::len) as u64;
+                let gr: Vec<(u64, u64)> = s.group_ranges.iter().map(|&(a, b)| (a as u64, b as u64)).collect();
+                (s.total_rows, fmt_ranges(&s.group_ranges), tiles(&gr, ng), guarded(|| ops.split(&s, 7)).ok().flatten(), guarded(|| ops.clone_any(&s)).ok().flatten())
+            }
+        })
+    });
+    let (total, ranges_str, ranges_tile, split, cloned): Meta = match meta {
+        Ok(Ok(m)) => m,
+        Ok(Err(e)) => {
+            fails.push(("streamed-read-error", format!("build shards: {e:#}")));
+            (0, "ERR".into(), true, None, None)
+        }
+        Err(m) => {
+            fails.push(("streamed-read-panics", format!("build shards: {m}")));
+            (0, "PANIC".into(), true, None, None)
+        }
+    };
+    if !ranges_tile {
+        fails.push(("shards-do-not-tile", format!("ranges {ranges_str} do not tile the file")));
+    }
+    let p_str = match split.and_then(parts_to_vecs) {
+        Some(parts) => {
+            let flat: Vec<Rec> = parts.iter().flatten().cloned().collect();
+            if !same(&flat, data) {
+                fails.push(("streamed-differs-from-whole", format!("VecOps::split concat has {} records, first difference at {:?}", flat.len(), first_diff(&flat, data))));
+            }
+            join(parts.iter().map(Vec::len), ",")
+        }
+        None => "NONE".into(),
+    };
+    if let Some(c) = cloned.and_then(|p| p.downcast::<Vec<Rec>>().ok()) {
+        if !same(&c, data) {
+            fails.push(("streamed-differs-from-whole", format!("VecOps::clone_any has {} records", c.len())));
+        }
+    } else {
+        fails.push(("streamed-differs-from-whole", "VecOps::clone_any returned None".into()));
+    }
+    // through the pipeline: collect_seq and collect_par with several partition counts
+    // every other case puts an identity `map` after the source, so that the zero-partition /
+    // many-partition outputs of the file sources also flow through a stateless stage
+    let with_map = per % 2 == 1;
+    let stream = |p: &Pipeline| {
+        let pc = match fmt {
+            Fmt::Jsonl => read_jsonl_streaming::<Rec>(p, path, per),
+            Fmt::Csv | Fmt::CsvH => read_csv_streaming::<Rec>(p, path, fmt.hdr(), per),
+            Fmt::Parquet => read_parquet_streaming::<Rec>(p, path, per),
+        };
+        pc.map(|pc| if with_map { pc.map(|r: &Rec| r.clone()) } else { pc })
+    };
+    let show = |v: &Vec<Rec>| ids_or_len(v);
+    let p = Pipeline::default();
+    let s_str = match guarded(|| stream(&p).and_then(|pc| pc.collect_seq())) {
+        Ok(Ok(v)) => {
+            if !same(&v, data) {
+                fails.push(("streamed-differs-from-whole", format!("collect_seq has {} records, first difference at {:?}", v.len(), first_diff(&v, data))));
+            }
+            show(&v)
+        }
+        Ok(Err(e)) => {
+            fails.push(("streamed-read-error", format!("collect_seq: {e:#}")));
+            "ERR".into()
+        }
+        Err(m) => {
+            fails.push(("streamed-read-panics", format!("collect_seq: {m}")));
+            "PANIC".into()
+        }
+    };
+    let n = data.len();
+    let mut pcs: Vec<Option<usize>> = vec![None, Some(1), Some(2), Some(3), Some(n), Some(n + 1), Some(64)];
+    if n > 0 {
+        pcs.push(Some(n - 1));
+    }
+    let pick = cx.rng.below(pcs.len());
+    let mut q_str = String::new();
+    for (j, pc_n) in pcs.iter().enumerate() {
+        // quick tier: two partition counts per case (None + one drawn); others: all of them
+        if cx.tier == crate::ctx::Tier::Quick && j != 0 && j != pick {
+            continue;
+        }
+        let p = Pipeline::default();
+        let r = guarded(|| stream(&p).and_then(|pc| pc.collect_par(None, *pc_n)));
+        let s = match r {
+            Ok(Ok(v)) => {
+                if !same(&v, data) {
+                    fails.push(("streamed-differs-from-whole", format!("collect_par(partitions={pc_n:?}) has {} records, first difference at {:?}", v.len(), first_diff(&v, data))));
+                }
+                show(&v)
+            }
+            Ok(Err(e)) => {
+                fails.push(("streamed-read-error", format!("collect_par: {e:#}")));
+                "ERR".into()
+            }
+            Err(m) => {
+                fails.push(("streamed-read-panics", format!("collect_par: {m}")));
+                "PANIC".into()
+            }
+        };
+        if q_str.is_empty() {
+            q_str = s;
+        } else if q_str != s {
+            q_str = format!("{q_str}/{s}");
+        }
+    }
+    let req = match (fmt, groups) {
+        (Fmt::Parquet, Some(g)) => format!("SHARDS parquet {} {per}", join(g.iter(), ",")),
+        _ => format!("SHARDS {} {} {per}", fmt.name(), data.len()),
+    };
+    let nshards = ranges_str.matches('-').count();
+    let idx = cx.case(req, format!("T{total} R{ranges_str} P{p_str} S{s_str} Q{q_str} V{v_str}"), n >= 2 && ranges_str != "-");
+    cx.count(&format!("stream:{}", fmt.name()));
+    cx.count(&format!("stream:shards={}", if ranges_str == "-" { "0".into() } else if nshards >= 8 { "8+".into() } else { nshards.to_string() }));
+    cx.count(&format!("stream:per-vs-n:{}", if per == 0 { "0" } else if per < n { "<n" } else if per == n { "=n" } else { ">n" }));
+    for (sig, d) in fails {
+        cx.oracle_fail(idx, sig, d);
+    }
+}
+
+fn first_diff(a: &[Rec], b: &[Rec]) -> Option<(usize, Option<Rec>, Option<Rec>)> {
+    first_diff_idx(a, b).map(|k| (k, a.get(k).cloned(), b.get(k).cloned()))
+}
+fn first_diff_idx(a: &[Rec], b: &[Rec]) -> Option<usize> {
+    (0..a.len().max(b.len())).find(|&k| match (a.get(k), b.get(k)) {
+        (Some(x), Some(y)) => !same(std::slice::from_ref(x), std::slice::from_ref(y)),
+        _ => true,
+    })
+}
+/// length if the ids are 0..len in order, else `X`
+fn ids_or_len(v: &[Rec]) -> String {
+    if v.iter().enumerate().all(|(k, r)| r.id == k as u64) { v.len().to_string() } else { "X".into() }
+}
+
+/// writes `data` (sequential writer: free function or PCollection method) and streams it
+fn roundtrip_stream(cx: &mut Ctx, env: &mut Env, fmt: Fmt, data: &Vec<Rec>, per: usize) {
+    // codec: the sequential writers / all readers pick the codec from the extension (C10 owns the
+    // codec logic itself and the parallel writers' handling of compressed extensions)
+    let codec = if fmt != Fmt::Parquet && cx.rng.chance(1, 3) { *cx.rng.pick(&["gz", "zst", "bz2", "xz"]) } else { "" };
+    let path = if codec.is_empty() { env.fresh(fmt.ext()) } else { env.fresh(&format!("{}.{codec}", fmt.ext())) };
+    cx.count(&format!("stream:codec={}", if codec.is_empty() { "none" } else { codec }));
+    let via_pc = cx.rng.chance(1, 3);
+    let w = if via_pc { write_seq_pc(fmt, &path, data) } else { write_seq(fmt, &path, data) };
+    cx.count(if via_pc { "seqwrite:pcollection" } else { "seqwrite:vec" });
+    match w {
+        Ok(k) if k == data.len() => {}
+        other => {
+            let i = cx.case(format!("SHARDS {} {} {per}", fmt.name(), data.len()), "WRITE-ERR".into(), false);
+            cx.oracle_fail(i, "seq-writer-failed", format!("{other:?}"));
+            return;
+        }
+    }
+    let groups: Vec<usize> = if data.is_empty() { vec![] } else { vec![data.len()] };
+    stream_case(cx, fmt, &path, data, per, if fmt == Fmt::Parquet { Some(&groups) } else { None });
+    let _ = std::fs::remove_file(&path);
+}
+
+fn parquet_groups_case(cx: &mut Ctx, env: &mut Env, data: &Vec<Rec>, sizes: &[usize], per: usize) {
+    let path = env.fresh("parquet");
+    write_parquet_groups(&path, data, sizes).expect("parquet fixture");
+    // the fixture's real group structure (third-party writer) is what the request carries
+    // (read with the real code; if that itself misbehaves, fall back to the requested sizes so that the
+    // disagreement is attributed to the case below)
+    let real_sizes: Vec<usize> = guarded(|| {
+        let meta = build_parquet_shards(&path, 1).ok()?;
+        meta.group_ranges.iter().map(|&(a, b)| read_parquet_row_group_range::<Rec>(&meta, a, b).ok().map(|v| v.len())).collect::<Option<Vec<usize>>>()
+    })
+    .ok()
+    .flatten()
+    .unwrap_or_else(|| sizes.to_vec());
+    if real_sizes != sizes {
+        cx.count("parquet:fixture-groups-differ-from-requested");
+    }
+    stream_case(cx, Fmt::Parquet, &path, data, per, Some(&real_sizes));
+    let _ = std::fs::remove_file(&path);
+}
+
+// ---------------------------------------------------------------- PARWRITE
+
+fn raw_cells(path: &Path, fmt: Fmt) -> String {
+    match fmt {
+        Fmt::Jsonl => match read_jsonl_vec::<Rec>(path) {
+            Ok(v) => join(v.iter().map(|r| r.id), ","),
+            Err(_) => "UNREADABLE".into(),
+        },
+        _ => match read_csv_vec::<Vec<String>>(path, false) {
+            Ok(rows) => join(rows.iter().map(|r| if r.first().map(String::as_str) == Some("id") && r.get(1).map(String::as_str) == Some("s") { "H".to_string() } else { r.first().cloned().unwrap_or_default() }), ","),
+            Err(_) => "UNREADABLE".into(),
+        },
+    }
+}
+
+fn parwrite_case(cx: &mut Ctx, env: &mut Env, fmt: Fmt, data: &Vec<Rec>, shards: Option<usize>, via_pc: bool) {
+    let n = data.len();
+    let par = env.fresh(fmt.ext());
+    let seq = env.fresh(fmt.ext());
+    env.take_log("");
+    let r = guarded(|| {
+        if via_pc {
+            let p = Pipeline::default();
+            let pc = from_vec(&p, data.clone());
+            match fmt {
+                Fmt::Jsonl => pc.write_jsonl_par(&par, shards),
+                _ => pc.write_csv_par(&par, shards, fmt.hdr()),
+            }
+        } else {
+            match fmt {
+                Fmt::Jsonl => write_jsonl_par(&par, data, shards),
+                _ => write_csv_par(&par, data, shards, fmt.hdr()),
+            }
+        }
+    });
+    let site = if fmt == Fmt::Jsonl { "write_jsonl_par" } else { "write_csv_par" };
+    let bounds = env.take_log(site);
+    let auto = if fmt == Fmt::Jsonl { env.auto_jsonl } else { env.auto_csv };
+    let req = format!("PARWRITE {} {n} {} auto={auto} via={}", fmt.name(), opt_shards(shards), if via_pc { "pc" } else { "fn" });
+    let mut fails: Vec<(&'static str, String)> = vec![];
+    let ans = match r {
+        Err(m) => {
+            fails.push(("par-writer-panics", m));
+            "PANIC".to_string()
+        }
+        Ok(Err(e)) => {
+            fails.push(("par-writer-errors", format!("{e:#}")));
+            "ERR".to_string()
+        }
+        Ok(Ok(k)) => {
+            if k != n {
+                fails.push(("par-writer-count", format!("returned {k}, wrote {n}")));
+            }
+            write_seq(fmt, &seq, data).expect("sequential writer");
+            let a = std::fs::read(&par).unwrap_or_default();
+            let b = std::fs::read(&seq).unwrap_or_default();
+            if a != b {
+                fails.push(("par-file-differs-from-seq-file", format!("{} vs {} bytes", a.len(), b.len())));
+            }
+            match read_whole(fmt, &par) {
+                Ok(v) if same(&v, data) => {}
+                Ok(v) => fails.push(("par-file-reads-back-differently", format!("{} records, first difference at {:?}", v.len(), first_diff(&v, data)))),
+                Err(e) => fails.push(("par-file-reads-back-differently", format!("{e:#}"))),
+            }
+            // no part files may be left behind
+            if fmt == Fmt::Jsonl {
+                let left = std::fs::read_dir(env.dir.path()).map(|d| d.filter_map(Result::ok).filter(|e| e.file_name().to_string_lossy().contains(".part")).count()).unwrap_or(0);
+                if left > 0 {
+                    fails.push(("par-writer-leaves-part-files", format!("{left} part files")));
+                }
+            }
+            format!("OK B{} W{}", join(bounds.iter().map(|(i, s, e)| format!("{i}:{s}-{e}")), ","), raw_cells(&par, fmt))
+        }
+    };
+    let idx = cx.case(req, ans, n >= 2 && shards.is_none_or(|s| s >= 2));
+    cx.count(&format!("parwrite:{}:{}", fmt.name(), if via_pc { "pc" } else { "fn" }));
+    cx.count(&format!("parwrite:shards-vs-n:{}", match shards { None => "none", Some(0) => "0", Some(s) if s < n => "<n", Some(s) if s == n => "=n", _ => ">n" }));
+    if let Some(s) = shards {
+        if s >= 1 && n % s.min(n.max(1)) != 0 {
+            cx.count("parwrite:non-dividing");
+        }
+    }
+    for (sig, d) in fails {
+        cx.oracle_fail(idx, sig, d);
+    }
+    // clean up (also stale part files after a panic)
+    if let Ok(d) = std::fs::read_dir(env.dir.path()) {
+        for e in d.filter_map(Result::ok) {
+            if e.path().is_file() {
+                let _ = std::fs::remove_file(e.path());
+            }
+        }
+    }
+}
+
+// ---------------------------------------------------------------- JSONLRD (byte level, blank lines, malformed)
+
+fn jsonlrd_case(cx: &mut Ctx, env: &mut Env, bytes: &[u8], per: usize) {
+    let path = env.fresh("jsonl");
+    std::fs::write(&path, bytes).unwrap();
+    let Ok(Ok(shards)) = guarded(|| build_jsonl_shards(&path, per)) else {
+        let idx = cx.case(format!("JSONLRD {} {per}", if bytes.is_empty() { "-".into() } else { hex(bytes) }), "BUILD-FAILED".into(), false);
+        cx.oracle_fail(idx, "streamed-read-panics", "build_jsonl_shards failed on a readable file".into());
+        return;
+    };
+    let ops = JsonlVecOps::<i64>::new();
+    let p = Pipeline::default();
+    let seq = guarded(|| read_jsonl_streaming::<i64>(&p, &path, per).and_then(|pc| pc.collect_seq()));
+    let p2 = Pipeline::default();
+    let parts_n = 1 + cx.rng.below(5);
+    let par = guarded(|| read_jsonl_streaming::<i64>(&p2, &path, per).and_then(|pc| pc.collect_par(None, Some(parts_n))));
+    let vec = read_jsonl_vec::<i64>(&path);
+    let split: Option<Vec<Vec<i64>>> = guarded(|| ops.split(&shards, 3)).ok().flatten().and_then(|ps| ps.into_iter().map(|p| p.downcast::<Vec<i64>>().ok().map(|b| *b)).collect());
+    let seq_s = match &seq {
+        Ok(Ok(v)) => format!("OK {}", join(v.iter(), ",")),
+        Ok(Err(_)) => "ERR".into(),
+        Err(_) => "PANIC".into(),
+    };
+    let par_s = match (&split, &par) {
+        (Some(parts), Ok(Ok(_))) => format!("OK {}", join(parts.iter().map(|p| join(p.iter(), ",")), "|")),
+        (None, Ok(Ok(v))) => format!("FALLBACK {}", join(v.iter(), ",")),
+        (_, Ok(Err(_))) => "ERR".into(),
+        (_, Err(_)) => "PANIC".into(),
+    };
+    let vec_s = match &vec {
+        Ok(v) => format!("OK {}", join(v.iter(), ",")),
+        Err(_) => "ERR".into(),
+    };
+    let req = format!("JSONLRD {} {per}", if bytes.is_empty() { "-".into() } else { hex(bytes) });
+    let idx = cx.case(req, format!("T{} R{} SEQ {seq_s} PAR {par_s} VEC {vec_s}", shards.total_lines, fmt_ranges(&shards.ranges)), shards.ranges.len() >= 2);
+    cx.count(if vec.is_ok() { "jsonlrd:wellformed" } else { "jsonlrd:malformed" });
+    if !tiles(&shards.ranges, shards.total_lines) {
+        cx.oracle_fail(idx, "shards-do-not-tile", format!("{:?} total {}", shards.ranges, shards.total_lines));
+    }
+    if let Ok(whole) = &vec {
+        // streamed == whole, whenever the whole read succeeds
+        let ok_seq = matches!(&seq, Ok(Ok(v)) if v == whole);
+        let ok_par = matches!(&par, Ok(Ok(v)) if v == whole);
+        let ok_split = split.as_ref().is_some_and(|ps| &ps.concat() == whole);
+        if !(ok_seq && ok_par && ok_split) {
+            cx.oracle_fail(idx, "streamed-differs-from-whole", format!("whole={whole:?} seq_ok={ok_seq} par_ok={ok_par} split_ok={ok_split}"));
+        }
+    }
+    else if matches!(&seq, Ok(Ok(_))) || matches!(&par, Ok(Ok(_))) {
+        // the whole read fails: the streamed views must not "succeed" with something else
+        cx.oracle_fail(idx, "streamed-differs-from-whole", format!("read_jsonl_vec fails but streamed read returns seq={seq_s} par={par_s}"));
+    }
+    let _ = std::fs::remove_file(&path);
+}
+
+fn gen_jsonl_bytes(cx: &mut Ctx, malformed: bool) -> Vec<u8> {
+    const BLANKS: &[&str] = &["", " ", "\t", "  \t ", "\r", "\u{a0}", "\u{2028}", "\u{c}", "\u{85}", "\u{3000} "];
+    const BAD: &[&str] = &["x", "{", "1 2", "01", "1.0", "1e2", "9223372036854775808", "-9223372036854775809", "\"1\"", "[1]", "null", "+1", "\u{a0}1", "1\u{c}"];
+    const INTS: &[&str] = &["0", "1", "-1", "42", "9223372036854775807", "-9223372036854775808", "1000000"];
+    let n = cx.rng.below(9);
+    let mut out = String::new();
+    for k in 0..n {
+        let line: String = match cx.rng.below(10) {
+            0..=1 => cx.rng.pick(BLANKS).to_string(),
+            2 if malformed => cx.rng.pick(BAD).to_string(),
+            3 => format!("{}{}{}", cx.rng.pick(&[" ", "\t", ""]), cx.rng.pick(INTS), cx.rng.pick(&[" ", "\t", "", "  "])),
+            4 => cx.rng.pick(INTS).to_string(),
+            _ => cx.rng.range(-50, 50).to_string(),
+        };
+        out.push_str(&line);
+        let last = k + 1 == n;
+        match cx.rng.below(8) {
+            0 => out.push_str("\r\n"),
+            1 if last => {} // unterminated last line
+            2 if last => out.push('\r'), // unterminated, trailing CR is NOT stripped
+            _ => out.push('\n'),
+        }
+    }
+    out.into_bytes()
+}
+
+// ---------------------------------------------------------------- GLOB
+
+fn comp_cmp(a: &str, b: &str) -> std::cmp::Ordering {
+    let ca: Vec<&[u8]> = a.split('/').map(str::as_bytes).collect();
+    let cb: Vec<&[u8]> = b.split('/').map(str::as_bytes).collect();
+    ca.cmp(&cb)
+}
+
+fn glob_case(cx: &mut Ctx, env: &mut Env, fmt: Fmt, names: &[(String, usize)], deep: bool) {
+    env.k += 1;
+    let root = env.dir.path().join(format!("g{}", env.k));
+    std::fs::create_dir_all(&root).unwrap();
+    let ext = fmt.ext();
+    let mut files: Vec<(String, Vec<Rec>)> = vec![];
+    let mut next_id = 0u64;
+    for (name, cnt) in names {
+        let mut recs = gen_recs(cx, *cnt);
+        for r in &mut recs {
+            r.id = next_id;
+            next_id += 1;
+        }
+        let path = root.join(name);
+        std::fs::create_dir_all(path.parent().unwrap()).unwrap();
+        write_seq(fmt, &path, &recs).expect("write glob fixture");
+        files.push((name.clone(), recs));
+    }
+    // decoys: other extension, and a directory whose name matches the pattern
+    std::fs::write(root.join("decoy.txt"), b"not data").unwrap();
+    std::fs::create_dir_all(root.join(format!("dir.{ext}"))).unwrap();
+    let matched: Vec<usize> = (0..files.len()).filter(|&k| files[k].0.ends_with(&format!(".{ext}")) && (deep || !files[k].0.contains('/'))).collect();
+    let pattern = if deep { format!("{}/**/*.{ext}", root.display()) } else { format!("{}/*.{ext}", root.display()) };
+    // expected order: component-wise comparison of the relative paths, computed here
+    let mut want_order = matched.clone();
+    want_order.sort_by(|&a, &b| comp_cmp(&files[a].0, &files[b].0));
+    let want: Vec<Rec> = want_order.iter().flat_map(|&k| files[k].1.clone()).collect();
+    let p = Pipeline::default();
+    let got = guarded(|| match fmt {
+        Fmt::Jsonl => read_jsonl::<Rec>(&p, &pattern).and_then(|pc| pc.collect_seq()),
+        Fmt::Csv | Fmt::CsvH => read_csv::<Rec>(&p, &pattern, fmt.hdr()).and_then(|pc| pc.collect_seq()),
+        Fmt::Parquet => read_parquet_streaming::<Rec>(&p, &pattern, 1).and_then(|pc| pc.collect_par(None, Some(3))),
+    });
+    let listed = expand_glob(&pattern).unwrap_or_default();
+    let order: Vec<String> = listed
+        .iter()
+        .map(|pb| {
+            let rel = pb.strip_prefix(&root).unwrap().to_string_lossy().to_string();
+            files.iter().position(|f| f.0 == rel).map_or("?".to_string(), |k| matched.iter().position(|&m| m == k).map_or("?".to_string(), |j| j.to_string()))
+        })
+        .collect();
+    let spec = join(matched.iter().map(|&k| format!("{}:{}", files[k].0, files[k].1.len())), ",");
+    let req = format!("GLOB {spec}");
+    let (ans, fail) = match &got {
+        Ok(Ok(v)) => {
+            let ids = join(v.iter().map(|r| owner_of(&files, &matched, r.id)), ",");
+            (format!("F{} N{} I{ids}", join(order.iter(), ","), v.len()), if same(v, &want) { None } else { Some(format!("glob read returned {} records, expected {} (first difference at {:?})", v.len(), want.len(), first_diff(v, &want))) })
+        }
+        Ok(Err(e)) => {
+            if matched.is_empty() { ("ERR-NOFILES".to_string(), None) } else { ("ERR".to_string(), Some(format!("{e:#}"))) }
+        }
+        Err(m) => ("PANIC".to_string(), Some(m.clone())),
+    };
+    if matched.is_empty() {
+        // documented: a glob without matches is an error; nothing to compare with the model
+        cx.count("glob:no-match");
+        let _ = std::fs::remove_dir_all(&root);
+        let _ = ans;
+        return;
+    }
+    let idx = cx.case(req, ans, matched.len() >= 2);
+    cx.count(&format!("glob:{}:{}", fmt.name(), if deep { "deep" } else { "flat" }));
+    if let Some(d) = fail {
+        cx.oracle_fail(idx, "glob-read-differs", d);
+    }
+    let _ = std::fs::remove_dir_all(&root);
+}
+
+/// index (within `matched`) of the file that owns record `id` (ids are assigned consecutively over ALL files)
+fn owner_of(files: &[(String, Vec<Rec>)], matched: &[usize], id: u64) -> String {
+    let mut start = 0u64;
+    for (k, f) in files.iter().enumerate() {
+        let end = start + f.1.len() as u64;
+        if id >= start && id < end {
+            return matched.iter().position(|&m| m == k).map_or("?".into(), |j| j.to_string());
+        }
+        start = end;
+    }
+    "?".into()
+}
+
+fn gen_names(cx: &mut Ctx, ext: &str, deep: bool) -> Vec<(String, usize)> {
+    const STEMS: &[&str] = &["a", "b", "a-b", "a.b", "a_b", "A", "B", "part-0", "part-1", "part-10", "part-2", "z", "0", "10", "9", "data", "day=01", "day=1", "é", "a+b"];
+    const DIRS: &[&str] = &["a", "a-b", "sub", "year=2024", "b", "A"];
+    let n = 1 + cx.rng.below(6);
+    let mut out: Vec<(String, usize)> = vec![];
+    for _ in 0..n {
+        let stem = cx.rng.pick(STEMS);
+        let e = if cx.rng.chance(1, 6) { "txt" } else { ext };
+        let name = if deep && cx.rng.chance(1, 2) {
+            if cx.rng.chance(1, 3) { format!("{}/{}/{stem}.{e}", cx.rng.pick(DIRS), cx.rng.pick(DIRS)) } else { format!("{}/{stem}.{e}", cx.rng.pick(DIRS)) }
+        } else {
+            format!("{stem}.{e}")
+        };
+        // a path may not be both a file and a directory prefix of another; keep names distinct
+        if out.iter().any(|(o, _)| *o == name || o.starts_with(&format!("{name}/")) || name.starts_with(&format!("{o}/"))) {
+            continue;
+        }
+        out.push((name, cx.rng.below(4)));
+    }
+    out
+}
+
+fn splitr_case(cx: &mut Ctx, len: usize, parts: usize) {
+    let r = verif_split_ranges(len, parts);
+    let idx = cx.case(format!("SPLITR {len} {parts}"), join(r.iter().map(|(i, s, e)| format!("{i}:{s}-{e}")), ","), len >= 2 && parts >= 2);
+    let rs: Vec<(u64, u64)> = r.iter().map(|&(_, s, e)| (s as u64, e as u64)).collect();
+    if !tiles(&rs, len as u64) || r.iter().enumerate().any(|(k, x)| x.0 != k) {
+        cx.oracle_fail(idx, "shards-do-not-tile", format!("split_ranges({len},{parts}) = {r:?}"));
+    }
+    cx.count("splitr");
+}
+
+// ---------------------------------------------------------------- driver
+
+fn per_candidates(n: usize) -> Vec<usize> {
+    let mut v = vec![0, 1, 2, 3, n, n + 1, 2 * n + 5, usize::MAX];
+    if n > 0 {
+        v.push(n - 1);
+    }
+    v
+}
 
 pub fn run(cx: &mut Ctx) {
-    cx.notes.push("C09: harness not implemented".to_string());
+    // make later `build_global` calls inside ironbeam no-ops (PCollection::write_csv_par passes its
+    // shard count as the rayon thread count)
+    rayon::ThreadPoolBuilder::new().build_global().ok();
+    let log: Arc<Mutex<Vec<(&'static str, usize, usize, usize)>>> = Arc::new(Mutex::new(vec![]));
+    {
+        let l = Arc::clone(&log);
+        ironbeam::verif_hooks::set_shard_callback(Some(Arc::new(move |site, i, s, e| l.lock().unwrap().push((site, i, s, e)))));
+    }
+    let mut env = Env { dir: tempfile::tempdir().expect("tempdir"), k: 0, auto_jsonl: 0, auto_csv: 0, log };
+    // measure the `None` shard defaults of the two parallel writers on this machine from the real code
+    {
+        let big: Vec<Rec> = gen_recs(&mut Ctx::new("C09", 0, cx.tier), 4096);
+        let p = env.fresh("jsonl");
+        env.take_log("");
+        // on the pinned code this call itself can panic (4096 rows, 16 shards does not, but be safe)
+        let _ = guarded(|| write_jsonl_par(&p, &big, None));
+        env.auto_jsonl = env.take_log("write_jsonl_par").len();
+        let p = env.fresh("csv");
+        let _ = guarded(|| write_csv_par(&p, &big, None, false));
+        env.auto_csv = env.take_log("write_csv_par").len();
+        cx.notes.push(format!("auto shard counts measured from the real writers on 4096 rows: jsonl={} csv={}", env.auto_jsonl, env.auto_csv));
+        for e in std::fs::read_dir(env.dir.path()).unwrap().filter_map(Result::ok) {
+            let _ = std::fs::remove_file(e.path());
+        }
+    }
+
+    // (1) corpus: design witnesses (DESIGN §8 #4) and minimised past failures
+    for (n, s) in [(5usize, Some(4usize)), (17, Some(16)), (100, Some(16)), (100, None), (7, Some(5)), (3, Some(2))] {
+        let data = gen_recs(cx, n);
+        parwrite_case(cx, &mut env, Fmt::Jsonl, &data, s, false);
+        parwrite_case(cx, &mut env, Fmt::Jsonl, &data, s, true);
+        parwrite_case(cx, &mut env, Fmt::CsvH, &data, s, false);
+    }
+    for gf in [Fmt::Jsonl, Fmt::CsvH, Fmt::Parquet] {
+        // component-wise path order differs from string order here ('-' < '.' < '/')
+        let e = gf.ext();
+        let names: Vec<(String, usize)> = vec![(format!("a/x.{e}"), 2), (format!("a-b/x.{e}"), 1), (format!("a.{e}"), 3), (format!("a-b.{e}"), 1), (format!("a/a-b/y.{e}"), 1), (format!("a/a.{e}"), 2)];
+        glob_case(cx, &mut env, gf, &names, true);
+        glob_case(cx, &mut env, gf, &names, false);
+    }
+    jsonlrd_case(cx, &mut env, b"1\n\n 2\r\nx\n3", 2);
+    jsonlrd_case(cx, &mut env, b"1\n\n\n2\n3\n", 2);
+    jsonlrd_case(cx, &mut env, b"", 3);
+    jsonlrd_case(cx, &mut env, b"\n\n", 1);
+
+    // (2) exhaustive small scope
+    // exhaustive scopes do not grow in the search tier (only the random block does)
+    let thorough = cx.tier == crate::ctx::Tier::Thorough;
+    let top = if thorough { 26 } else { 20 };
+    for n in 0..top {
+        let data = gen_recs(cx, n);
+        for s in (0..=top + 1).map(Some).chain([None]) {
+            parwrite_case(cx, &mut env, Fmt::Jsonl, &data, s, false);
+            parwrite_case(cx, &mut env, if (n + s.unwrap_or(0)) % 2 == 0 { Fmt::CsvH } else { Fmt::Csv }, &data, s, false);
+        }
+    }
+    for len in 0..=top + 4 {
+        for parts in 0..=top + 6 {
+            splitr_case(cx, len, parts);
+        }
+    }
+    cx.exhaustive_blocks.push(format!("SPLITR: split_ranges(len, parts) for all len in 0..={} x parts in 0..={}", top + 4, top + 6));
+    cx.exhaustive_blocks.push(format!("PARWRITE: all (rows, shards) in 0..{top} x (0..={} + None) for write_jsonl_par and write_csv_par (header flag alternating)", top + 1));
+    for n in 0..top {
+        for fmt in [Fmt::Jsonl, Fmt::Csv, Fmt::CsvH] {
+            let data = gen_recs(cx, n);
+            let path = env.fresh(fmt.ext());
+            write_seq(fmt, &path, &data).expect("write");
+            for per in 0..=top + 1 {
+                stream_case(cx, fmt, &path, &data, per, None);
+            }
+            let _ = std::fs::remove_file(&path);
+        }
+    }
+    cx.exhaustive_blocks.push(format!("SHARDS: all (rows, shard size) in 0..{top} x 0..={} for jsonl, csv, csv+header streaming sources (split, clone_any, collect_seq, collect_par)", top + 1));
+    // parquet: all compositions of up to 5 rows into row groups x groups_per_shard 0..=4
+    let maxrows = if thorough { 7 } else { 5 };
+    let mut comps: Vec<Vec<usize>> = vec![vec![]];
+    for total in 1..=maxrows {
+        // compositions of `total`
+        for mask in 0..(1u32 << (total - 1)) {
+            let mut sizes = vec![];
+            let mut cur = 1;
+            for b in 0..total - 1 {
+                if mask & (1 << b) != 0 { sizes.push(cur); cur = 1; } else { cur += 1; }
+            }
+            sizes.push(cur);
+            comps.push(sizes);
+        }
+    }
+    for sizes in &comps {
+        let total: usize = sizes.iter().sum();
+        let data = gen_recs(cx, total);
+        for per in 0..=sizes.len() + 1 {
+            parquet_groups_case(cx, &mut env, &data, sizes, per);
+        }
+    }
+    cx.exhaustive_blocks.push(format!("SHARDS parquet: all row-group compositions of 0..={maxrows} rows x groups_per_shard 0..=groups+1 ({} files)", comps.len()));
+
+    // (3) random block
+    let rounds = cx.budget(500, 6000);
+    for _ in 0..rounds {
+        let n = match cx.rng.below(10) {
+            0 => 0,
+            1 => 1,
+            2..=6 => 2 + cx.rng.below(12),
+            7..=8 => 14 + cx.rng.below(40),
+            _ => 60 + cx.rng.below(200),
+        };
+        let data = gen_recs(cx, n);
+        let fmt = *cx.rng.pick(&[Fmt::Jsonl, Fmt::Jsonl, Fmt::Csv, Fmt::CsvH, Fmt::Parquet]);
+        let per = *cx.rng.pick(&per_candidates(n));
+        roundtrip_stream(cx, &mut env, fmt, &data, per);
+        // parallel writers
+        let wf = *cx.rng.pick(&[Fmt::Jsonl, Fmt::Csv, Fmt::CsvH]);
+        let via_pc = cx.rng.chance(1, 3);
+        let mut cands = vec![None, Some(0), Some(1), Some(2), Some(3), Some(n), Some(n + 1), Some(2 * n + 3)];
+        if n > 0 { cands.push(Some(n - 1)); }
+        if !(via_pc && wf != Fmt::Jsonl) { cands.push(Some(usize::MAX)); }
+        let s = *cx.rng.pick(&cands);
+        parwrite_case(cx, &mut env, wf, &data, s, via_pc);
+        // multi-row-group parquet
+        if cx.rng.chance(1, 3) && n > 0 {
+            let mut sizes = vec![];
+            let mut left = n;
+            while left > 0 {
+                let g = 1 + cx.rng.below(left.min(1 + n / 2));
+                sizes.push(g);
+                left -= g;
+            }
+            let per = *cx.rng.pick(&per_candidates(sizes.len()));
+            parquet_groups_case(cx, &mut env, &data, &sizes, per);
+        }
+        // byte-level JSONL with blank lines / CRLF; separate malformed stream
+        let malformed = cx.rng.chance(1, 4);
+        let bytes = gen_jsonl_bytes(cx, malformed);
+        let per = *cx.rng.pick(&[0usize, 1, 2, 3, 4, 100]);
+        jsonlrd_case(cx, &mut env, &bytes, per);
+        let (l, q) = (cx.rng.below(3000), *cx.rng.pick(&[0usize, 1, 2, 7, 64, 2999, 3000, 3001, usize::MAX]));
+        splitr_case(cx, l, q);
+        // glob over several files
+        if cx.rng.chance(1, 2) {
+            let gf = *cx.rng.pick(&[Fmt::Jsonl, Fmt::Csv, Fmt::CsvH, Fmt::Parquet]);
+            let deep = cx.rng.chance(1, 2);
+            let names = gen_names(cx, gf.ext(), deep);
+            glob_case(cx, &mut env, gf, &names, deep);
+        }
+    }
+    ironbeam::verif_hooks::set_shard_callback(None);
 }
